@@ -87,7 +87,15 @@ def opcode_table(an: Analysis, f: FunctionInfo, container: ast.AST, V) -> Option
         try:
             val = feval(m.assigns[container.id][0], env)
         except Exception:
-            return None
+            # a table built by a comprehension over dis.opmap / dis.opname (`frozenset(op for name, op in dis.opmap.items() if name.endswith(...))`)
+            from sa.feval import PureEval
+            pe = PureEval(lambda name: None, extra={k: v for k, v in env.items() if "." not in k})
+            pe.module_assigns = m.assigns
+            pe.MAX_ITER = 512
+            try:
+                val = pe.ev(m.assigns[container.id][0], {})
+            except Exception:
+                return None
         if isinstance(val, (set, frozenset, list, tuple)) and all(isinstance(x, int) for x in val):
             return set(val)
     return None
@@ -207,6 +215,8 @@ def run(an: Analysis, rep):
     from .common import rejection_paths_rule
     rep.run(rejection_paths_rule, an, rep, "R02.R", ["from_code"], DECODER_REJECTIONS, "from_code")
     from . import c08
+    rep.run(c08.r083, an, SharedRules(rep, "R02.S", "what the decoder stores in the data classes has the declared (hashable) shape (shared with C08's R08.3): a list left in a tuple field makes the decoding of the "
+                                                   "enclosing code object raise when it keys its constants"))
     rep.run(c08.r084, an, SharedRules(rep, "R02.K", "the decoder tells its constants apart by this key while it numbers them (shared with C08's R08.4): a constant type without a key makes from_code raise, "
                                       "a coarser key gives two instructions the same Constant although CPython loads different ones ('each operand is the same ... constant (type-exact)')"), rule="R02.K")
     rep.stats.update(an.stats(interps))
